@@ -15,6 +15,7 @@ import KafkaVerif.Base.Bytes
 import KafkaVerif.Model.GroupBalancer
 import KafkaVerif.Spec.GroupAssign
 import KafkaVerif.Model.GroupGlue
+import KafkaVerif.Model.GroupWire
 
 namespace KV.OracleC14
 open KV KV.GroupBalancer KV.Spec.GroupAssign
@@ -148,10 +149,88 @@ def stepHelper (op a b impl : String) : String :=
     | _, _, _ => "bad-args"
   | _ => "bad-op"
 
+/-! ### byte level (Model/GroupWire.lean) -/
+
+def hexOr (b : Bytes) : String := if b.isEmpty then "-" else toHex b
+
+def parseXBytes (s : String) : Option Bytes :=
+  if s.startsWith "x" then
+    let h := (s.drop 1).toString
+    if h.isEmpty then some [] else ofHex h
+  else none
+
+def parseWEntry (s : String) : Option (Bytes × List Int) :=
+  match s.splitOn "=" with
+  | [n, vs] => match parseXBytes n, parseInts vs with
+    | some n, some vs => some (n, vs)
+    | _, _ => none
+  | _ => none
+
+def showEntry (e : Bytes × List Int) : String :=
+  s!"x{toHex e.1}={if e.2.isEmpty then "-" else showInts e.2}"
+
+/-- Go map semantics of `content[key] = values` over the entries in wire order, rendered sorted by hex name -/
+def renderEntries (es : List (Bytes × List Int)) : String :=
+  let m := es.foldl (fun acc e => (acc.filter (fun x => x.1 != e.1)) ++ [e]) ([] : List (Bytes × List Int))
+  let strs := (m.map showEntry).mergeSort (fun a b => decide (a ≤ b))
+  if strs.isEmpty then "-" else ";".intercalate strs
+
+def renderRead {α : Type} (res : Except KV.Reader.Err α × KV.Reader.RS) (f : α → String) : String :=
+  match res.1 with
+  | .ok a => s!"ok|{f a}|r{res.2.sz}"
+  | .error _ => "err"
+
+def stepWire (ws : List String) (impl : String) : String :=
+  match ws with
+  | ["abytes", es] =>
+    match parseList parseWEntry es, ofHex impl with
+    | some es, some b =>
+      -- Go picks the order of the entries: decode the bytes with the reader model, the decoded entries must be a
+      -- permutation of the requested ones and the writer model must produce exactly these bytes for that order
+      let dec := KV.GroupWire.readAssignment ⟨b, b.length⟩
+      let order := match dec.1 with
+        | .ok (_, es', _) => if decide (es'.Perm es) then es' else es
+        | .error _ => es
+      let model := KV.GroupWire.writeAssignment ⟨1, order, none⟩
+      answer (hexOr model) (model == b && dec.2.sz == 0 && dec.2.inp.isEmpty)
+    | _, _ => "bad-args"
+  | ["aread", hx, want] =>
+    match ofHex hx with
+    | some b =>
+      let dec := KV.GroupWire.readAssignment ⟨b, b.length⟩
+      let model := renderRead dec fun (v, es, u) => s!"v{v}|{renderEntries es}|u{hexOr u}"
+      let holds := if want == "?" then impl == model
+        else match parseList parseWEntry want with
+          | some es => impl == s!"ok|v1|{renderEntries es}|u-|r0"
+          | none => false
+      answer model holds
+    | none => "bad-args"
+  | ["mbytes", ts, ud] =>
+    match parseList parseXBytes ts, (if ud == "nil" then some none else (parseXBytes ud).map some) with
+    | some ts, some u => let model := hexOr (KV.GroupWire.writeMetadata ⟨1, ts, u⟩); answer model (impl == model)
+    | _, _ => "bad-args"
+  | ["mread", hx, ts, ud] =>
+    match ofHex hx with
+    | some b =>
+      let dec := KV.GroupWire.readMetadata ⟨b, b.length⟩
+      let showTs (l : List Bytes) : String := if l.isEmpty then "-" else ";".intercalate (l.map fun t => "x" ++ toHex t)
+      let model := renderRead dec fun (v, l, u) => s!"v{v}|{showTs l}|u{hexOr u}"
+      let holds := if ts == "?" then impl == model
+        else match parseList parseXBytes ts, (if ud == "nil" then some [] else parseXBytes ud) with
+          | some l, some u => impl == s!"ok|v1|{showTs l}|u{hexOr u}|r0"
+          | _, _ => false
+      answer model holds
+    | none => "bad-args"
+  | _ => "bad-op"
+
 def step (line : String) : String :=
   match line.splitOn " => " with
   | [req, impl] =>
     match words req with
+    | "abytes" :: _ => stepWire (words req) impl
+    | "aread" :: _ => stepWire (words req) impl
+    | "mbytes" :: _ => stepWire (words req) impl
+    | "mread" :: _ => stepWire (words req) impl
     | ["xtopics", a] =>
       match parseList parseMember a, parseNats impl with
       | some rms, some got =>
